@@ -369,8 +369,11 @@ def rule_reject(chk, prog):
         if n.kind == "stmt" and isinstance(n.ast, ast.Return):
             n_ret += 1
             conds = cfgm.conditions_at(n.ast)
-            okc = any(pol and isinstance(t, ast.Compare) and isinstance(t.ops[0], ast.In)
-                      and "ALL_CLASS_DICT" in pf.src(t.comparators[0]) for t, pol, _ in conds)
+            # `if code in D: return D[code]...` or the early-exit form `if code not in D: raise` / return after it
+            okc = any(isinstance(t, ast.Compare) and len(t.ops) == 1
+                      and "ALL_CLASS_DICT" in pf.src(t.comparators[0])
+                      and ((pol and isinstance(t.ops[0], ast.In)) or (not pol and isinstance(t.ops[0], ast.NotIn)))
+                      for t, pol, _ in conds)
             if okc:
                 chk.ok("reject", "FeatureNormalizer.from_dict dispatch under membership test")
             else:
@@ -400,6 +403,26 @@ def rule_reject(chk, prog):
             else:
                 chk.violation("reject", MU, "load_cider_model", pf.src(n), n.lineno,
                               "a return is reachable without the isinstance(mlfunc, (MappedXC, MappedXC2)) test")
+    # an explicit format argument wins over anything inferred from the file name: the format parameter may only
+    # be rebound where it is None (directly, or inside a same-module helper that returns the forwarded argument
+    # on every path where it is not None)
+    if len(fn.args.args) >= 2:
+        pname = fn.args.args[1].arg
+        n_rebind = 0
+        for n in pf.walk_no_nested(fn):
+            if not (isinstance(n, ast.Assign) and any(isinstance(t, ast.Name) and t.id == pname for t in n.targets)):
+                continue
+            n_rebind += 1
+            why = _explicit_wins(mu, n, pname)
+            inst = "load_cider_model rebinds %s only where it is None (%s)" % (pname, pf.src(n)[:60])
+            if why is None:
+                chk.ok("reject", inst)
+            else:
+                chk.violation("reject", MU, "load_cider_model", pf.src(n), n.lineno,
+                              "the explicit format argument `%s` is overridden %s: a model saved under a name whose "
+                              "extension disagrees with the requested format is read with the wrong loader, and an "
+                              "unsupported explicit format is no longer rejected" % (pname, why), instance=inst)
+        chk.count("format rebinds", n_rebind)
     ladders = 0
     # the format ladders may live in same-module helpers called (transitively) from load_cider_model
     fns, todo = [], [fn]
@@ -454,6 +477,57 @@ def rule_reject(chk, prog):
             else:
                 chk.violation("attr-loop", AN, "ElectronAnalyzer.from_dict", "d[%r]" % kr[0], n.lineno,
                               "key %r read by from_dict is never written by as_dict" % kr[0])
+
+
+def _is_none_test(t, pol, name):
+    """True when (t, pol) establishes `name is None`"""
+    if isinstance(t, ast.Compare) and len(t.ops) == 1 and isinstance(t.left, ast.Name) and t.left.id == name \
+            and isinstance(t.comparators[0], ast.Constant) and t.comparators[0].value is None:
+        if isinstance(t.ops[0], (ast.Is, ast.Eq)):
+            return pol
+        if isinstance(t.ops[0], (ast.IsNot, ast.NotEq)):
+            return not pol
+    if isinstance(t, ast.UnaryOp) and isinstance(t.op, ast.Not):
+        return _is_none_test(t.operand, not pol, name)
+    return False
+
+
+def _explicit_wins(mod, assign, pname):
+    """None when the rebinding of the explicit-format parameter cannot override a non-None argument; else why."""
+    if any(_is_none_test(t, pol, pname) for t, pol, _ in cfgm.conditions_at(assign)):
+        return None
+    v = assign.value
+    if isinstance(v, ast.IfExp) and _is_none_test(v.test, True, pname) and isinstance(v.orelse, ast.Name) \
+            and v.orelse.id == pname:
+        return None
+    if isinstance(v, ast.IfExp) and _is_none_test(v.test, False, pname) and isinstance(v.body, ast.Name) \
+            and v.body.id == pname:
+        return None
+    if isinstance(v, ast.BoolOp) and isinstance(v.op, ast.Or) and isinstance(v.values[0], ast.Name) \
+            and v.values[0].id == pname:
+        return None  # `fmt = fmt or infer(...)`
+    if isinstance(v, ast.Call) and isinstance(v.func, ast.Name) and v.func.id in mod.functions:
+        h = mod.functions[v.func.id]
+        q = None
+        hp = [a.arg for a in h.args.args]
+        for i, a in enumerate(v.args):
+            if isinstance(a, ast.Name) and a.id == pname and i < len(hp):
+                q = hp[i]
+        for k in v.keywords:
+            if isinstance(k.value, ast.Name) and k.value.id == pname and k.arg in hp:
+                q = k.arg
+        if q is None:
+            return "by the result of %s(), which does not receive it" % h.name
+        for r in pf.walk_no_nested(h):
+            if not isinstance(r, ast.Return):
+                continue
+            if isinstance(r.value, ast.Name) and r.value.id == q:
+                continue
+            if any(_is_none_test(t, pol, q) for t, pol, _ in cfgm.conditions_at(r)):
+                continue
+            return "by %s(): `%s` is reachable with a non-None `%s`" % (h.name, pf.src(r), q)
+        return None
+    return "unconditionally by `%s`" % pf.src(v)[:60]
 
 
 def ladder_literals(ifnode, allow_none=False):
@@ -739,6 +813,8 @@ def mutants(tree):
         Mutant("loader memo", TD, '    @classmethod\n    def load(cls, fname):\n        with open(fname, "r") as f:\n            d = yaml.load(f, Loader=yaml.Loader)\n        return cls.from_dict(d)',
                '    @classmethod\n    def load(cls, fname):\n        if fname in _LOADED:\n            return _LOADED[fname]\n        with open(fname, "r") as f:\n            d = yaml.load(f, Loader=yaml.Loader)\n        _LOADED[fname] = cls.from_dict(d)\n        return _LOADED[fname]\n\n\n_LOADED = {}', expect="load-fresh"),
         Mutant("memory-mapped joblib load", MU, "joblib.load(mlfunc)", 'joblib.load(mlfunc, mmap_mode="r")', expect="load-fresh"),
+        Mutant("file extension overrides the explicit format", MU, "        if mlfunc_format is None:\n            if mlfunc.endswith(\".yaml\"):",
+               "        if True:\n            if mlfunc.endswith(\".yaml\"):", expect="reject"),
         Mutant("unregister a map", TD, "    SLDMap,\n    OmegaMap,", "    OmegaMap,", expect="code-table"),
     ]
 
